@@ -4,6 +4,8 @@ import PikaVerif.Lemmas.SemCover
 import PikaVerif.Lemmas.SemSolo
 import PikaVerif.Lemmas.SSemProg
 import PikaVerif.Lemmas.SSemSolo
+import PikaVerif.Lemmas.SSemCover
+import PikaVerif.Lemmas.SemHold
 /-!
 # C08t — termination / bounded progress of the semaphore operations (follow-up of C08)
 
@@ -512,5 +514,105 @@ example : (runLog SSem.step (SSem.init 3 1 0)
 
 example : SSem.sigSolo 2 4 0 [0, 1] =
     [.slAcq 2, .sig 2 4 2, .popResume 2 1 0, .slRel 2, .slAcq 2, .popResume 2 0 1, .slRel 2, .ret 2 false] := rfl
+
+end PikaVerif.C08t
+
+namespace PikaVerif.C08t
+open PikaVerif PikaVerif.C08
+
+
+/-- **Accounting of a blocked `wait` (sliding).**  If a maximal run of a program ends with thread
+    `t0` parked in `wait(u)`, then that `wait(u)` is an operation of `t0`'s program, and the lower
+    limit cannot have come within the configured distance `d` of `u`: neither the initial lower
+    limit `l` nor any *unguarded* signal value of the program (a signal not sequenced behind a
+    `wait` of its own thread — such a signal is executed in every maximal run) reaches `u - d`. -/
+theorem C08t_sliding_blocked_accounting (n : Nat) (d l : Int) (prog : Nat → List SSem.Op)
+    (log : List SSem.Ev) (p : SSem.PSt) (h : runLog SSem.pstep (SSem.pinit n d l prog) log = some p)
+    (hs : SSem.PStuck p) (t0 : Nat) (ht0 : t0 < n) (u : Int) (hb : SBlocked p.s t0 u) :
+    u ∈ SSem.waitVals (prog t0) ∧ l < u - d ∧
+      ∀ t, t < n → ∀ x, x ∈ SSem.unguarded (prog t) → x < u - d := by
+  obtain ⟨c1, c2, c3, c4⟩ := SSem.ucover_log d l prog (SSem.ucover_pinit n d l prog) h
+  have hfin := C08t_sliding_final_state n d l prog log p h hs
+  have hlow : p.s.lower < u - d := by
+    rcases hfin t0 ht0 with ⟨hf, _⟩ | ⟨u', hb', hlt⟩
+    · rw [hb.1] at hf; simp at hf
+    · have e := hb'.1
+      rw [hb.1] at e
+      simp only [SSem.Pc.susp.injEq, and_true] at e
+      subst e; rw [c1] at hlt; exact hlt
+  refine ⟨?_, by omega, ?_⟩
+  · apply c4 t0 u
+    left; rw [hb.1]; simp [SSem.curWait]
+  · intro t ht x hx
+    have hpend : SSem.pendU p t = [] := by
+      rcases hfin t ht with ⟨hf, hp⟩ | ⟨u', hb', _⟩
+      · simp [SSem.pendU, hf, hp, SSem.inWait, SSem.curSig, SSem.unguarded]
+      · simp [SSem.pendU, hb'.1, SSem.inWait]
+    rcases c3 t x hx with hx' | hx'
+    · omega
+    · rw [hpend] at hx'; simp at hx'
+
+/-- **Covered programs return (sliding): a task blocked in `wait(u)` proceeds once the signalled
+    lower bound is within the configured distance.**  If for every `wait(u)` of the program the
+    initial lower limit or some unguarded signal value of the program reaches `u - d`, then every
+    maximal run ends with all threads finished and all operations returned. -/
+theorem C08t_sliding_covered_all_return (n : Nat) (d l : Int) (prog : Nat → List SSem.Op)
+    (log : List SSem.Ev) (p : SSem.PSt) (h : runLog SSem.pstep (SSem.pinit n d l prog) log = some p)
+    (hs : SSem.PStuck p)
+    (hcov : ∀ t0, t0 < n → ∀ u, u ∈ SSem.waitVals (prog t0) →
+      u - d ≤ l ∨ ∃ t, t < n ∧ ∃ x, x ∈ SSem.unguarded (prog t) ∧ u - d ≤ x) :
+    ∀ t, t < n → p.s.pc t = .fin ∧ p.prog t = [] := by
+  intro t ht
+  rcases C08t_sliding_final_state n d l prog log p h hs t ht with hf | ⟨u, hb, _⟩
+  · exact hf
+  · exfalso
+    obtain ⟨a1, a2, a3⟩ := C08t_sliding_blocked_accounting n d l prog log p h hs t ht u hb
+    rcases hcov t ht u a1 with hc | ⟨t', ht', x, hx, hc⟩
+    · omega
+    · have := a3 t' ht' x hx; omega
+
+/-- non-vacuity: the program "thread 0: `wait 5`, thread 1: `signal 4`" with `max_difference = 1`,
+    `lower_limit = 0` is covered: its only wait value is 5, and thread 1's unguarded signal value
+    4 reaches `5 - 1` -/
+example : SSem.waitVals [SSem.Op.wait 5] = [5] ∧ SSem.unguarded [SSem.Op.signal 4] = [4] ∧
+    (5 : Int) - 1 ≤ 4 := by decide
+
+example : ∀ t0, t0 < 2 → ∀ u,
+    u ∈ SSem.waitVals ((fun t => if t = 0 then [SSem.Op.wait 5] else if t = 1 then [SSem.Op.signal 4] else []) t0) →
+      u - 1 ≤ (0 : Int) ∨ ∃ t, t < 2 ∧ ∃ x,
+        x ∈ SSem.unguarded ((fun t => if t = 0 then [SSem.Op.wait 5] else if t = 1 then [SSem.Op.signal 4] else []) t) ∧
+        u - 1 ≤ x := by
+  intro t0 ht0 u hu
+  right
+  refine ⟨1, by decide, 4, by decide, ?_⟩
+  have h01 : t0 = 0 ∨ t0 = 1 := by omega
+  rcases h01 with h0 | h0 <;> subst h0 <;> simp [SSem.waitVals] at hu
+  subst hu; decide
+
+/-- a signal behind a `wait` of the same thread is guarded: it does not count as cover (the
+    one-thread program `wait 5; signal 9` blocks forever for `lower_limit = 0`, `max_difference = 1`) -/
+example : SSem.unguarded [SSem.Op.wait 5, SSem.Op.signal 9] = [] := by decide
+
+end PikaVerif.C08t
+
+namespace PikaVerif.C08t
+open PikaVerif PikaVerif.Sem PikaVerif.C08
+
+/-! ## Termination modulo spinning on the internal lock
+
+The model has no event for a failed attempt on the internal spinlock (the driver drops the
+`sl.lock` / `ag.yield` lines of a spinning thread before the acceptor), so the bounds above bound
+the real code's events *modulo* such spinning.  A spinning episode lasts only while another thread
+holds the lock, and the holder is never blocked: -/
+
+/-- **The lock holder releases the internal lock within three of its own events**, in every
+    reachable state (so a thread spinning on the lock waits for at most three steps of one other
+    thread). -/
+theorem C08t_lock_released_within_three (s : St) (hr : Reachable s) (r : Nat) (hl : s.lock = some r) :
+    ∃ log s', log.length ≤ 3 ∧ (∀ e, e ∈ log → actor e = r) ∧ runLog step s log = some s' ∧
+      s'.lock = none := by
+  obtain ⟨n, v, log, hv, hlog⟩ := hr
+  obtain ⟨hi, hi2⟩ := inv2_of_accepted hlog
+  exact holder_releases s hi hi2 r hl
 
 end PikaVerif.C08t
